@@ -396,7 +396,8 @@ def r19_8(ctx: Ctx) -> None:
     ctx.floor("R19.8", len(ex), 1, "extractall calls in run_extract")
     closes = [c for c in q.calls(f) if attr_tail(c) == "close"]
     in_with = any(isinstance(w, ast.With) and any(e in list(ast.walk(st)) for st in w.body for e in ex) and
-                  any(isinstance(i.context_expr, ast.Call) and attr_tail(i.context_expr) == "SevenZipFile" or isinstance(i.context_expr, ast.Name) for i in w.items) for w in walk(f.node))
+                  any(isinstance(i.context_expr, ast.Call) and (attr_tail(i.context_expr) == "SevenZipFile" or (dotted(i.context_expr.func) or "").endswith("closing"))
+                      or isinstance(i.context_expr, ast.Name) for i in w.items) for w in walk(f.node))
     in_finally = any(isinstance(t, ast.Try) and any(c in list(ast.walk(st)) for st in t.finalbody for c in closes) and
                      all(any(e in list(ast.walk(st)) for st in t.body) for e in ex) for t in walk(f.node))
     ctx.check(in_with or in_finally, "R19.8", f, ex[0], "`x` closes the archive after extraction (finally / with)",
